@@ -75,7 +75,8 @@ theorem sharedAt_of_nodes {x y : Index} (h : y.nodes = x.nodes) (q : Path) (g c 
 theorem idxOK_of_nodes {x y : Index} (h : y.nodes = x.nodes) (hx : IdxOK x) : IdxOK y :=
   ⟨by rw [h]; exact hx.pc,
    ⟨fun q c sub hq => hx.pos.plain q c sub (by rw [← plainAt_of_nodes h]; exact hq),
-    fun q g c sub hq => hx.pos.shared q g c sub (by rw [← sharedAt_of_nodes h]; exact hq)⟩⟩
+    fun q g c sub hq => hx.pos.shared q g c sub (by rw [← sharedAt_of_nodes h]; exact hq)⟩,
+   by rw [h]; exact hx.paths, by rw [h]; exact hx.keys⟩
 
 structure Quiet (s s' : Server) : Prop where
   len : s'.objs.length = s.objs.length
